@@ -288,3 +288,42 @@ func VerifC16_WriterFails() {
 	}
 	vReach("ran")
 }
+
+// A task without a function, handed to AddTask before or after a proper task of
+// the same ID (or as a new ID): the definition is rejected, Run returns an
+// error without starting anything - it never calls the missing function.
+func VerifC16_NilFnTask() {
+	vNativeReset()
+	order := vInt("order", 0, 3)
+	entered := 0
+	fn := func(ctx context.Context, opt *getoptions.GetOpt, args []string) error {
+		entered++
+		vYield(entered)
+		return nil
+	}
+	g := NewGraph("g")
+	a := NewTask("a", fn)
+	b := NewTask("b", fn)
+	switch order {
+	case 0: // a proper task first, then the same ID without a function
+		g.AddTask(a)
+		g.AddTask(NewTask("a", nil))
+	case 1: // the other way round
+		g.AddTask(NewTask("a", nil))
+		g.AddTask(a)
+	case 2: // known through an edge, then without a function
+		g.AddTask(a)
+		g.AddTask(b)
+		g.TaskDependsOn(b, a)
+		g.AddTask(NewTask("a", nil))
+	case 3: // a new ID without a function next to a proper task
+		g.AddTask(a)
+		g.AddTask(NewTask("c", nil))
+	}
+	vPhase("run")
+	err := g.Run(vNewContext(), nil, nil)
+	vObserve("failed", err != nil)
+	vAssert("nil-fn/run-returns-an-error", err != nil)
+	vAssert("nil-fn/nothing-started", entered == 0)
+	vReach("ran")
+}
